@@ -253,7 +253,7 @@ def build_lvcs(ex):
     K = ex.program.find_class('LineageVolumeCellState')
     st = Arr(ex.fresh('lstate', tm.ArraySort(INT, REAL)), [3], REAL, 'ndarray', 'lstate')
     return ex.instantiate(K, [], dict(v0=ex.fresh('lv0', REAL), t0=ex.fresh('lt0', REAL), state=st, volume=ex.fresh('lvol', REAL), time=ex.fresh('ltime', REAL),
-                                      divided=2, dead=-1))
+                                      divided=ex.fresh('ldivided', INT), dead=ex.fresh('ldead', INT)))     # arbitrary codes (a default value here hid seed C17-c)
 
 
 roundtrip_contract('lineage', 'LineageVolumeCellState', build_lvcs, 'birth-and-current-values', skip=('volume_object', 'delay_queue'), param='state_tuple')
